@@ -8,15 +8,18 @@ SIG = Unit('l2cap_sig', description='l2cap::signaling_channel<> with raw state a
 
 def mux_cases(tier):
     cs = []
-    nmax = 31 if tier == 'quick' else 36
+    q = tier == 'quick'
+    nmax = 31 if q else 36
     for cfg in (0, 1):
-        for n in range(0, nmax + 1):
+        # quick: every size for the first channel set; for the second the sizes around the header and a few larger ones
+        sizes = range(0, nmax + 1) if (cfg == 0 or not q) else (0, 3, 4, 5, 6, 12, 31)
+        for n in sizes:
             cs.append({'CFG': cfg, 'MODE': 0, 'N': n, 'EXTRA': 0, 'NBUF': 1})
-        for n in ((4, 12, 31) if tier == 'quick' else range(0, nmax + 1)):
+        for n in (((4, 31) if cfg == 0 else ()) if q else range(0, nmax + 1)):
             cs.append({'CFG': cfg, 'MODE': 0, 'N': n, 'EXTRA': 3, 'NBUF': 1})
-        for extra in (0, 3):
+        for extra in ((0,) if q and cfg == 1 else (0, 3)):
             cs.append({'CFG': cfg, 'MODE': 1, 'N': 0, 'EXTRA': extra, 'NBUF': 1})
-        for nbuf in range(0, 5):
+        for nbuf in ((2,) if q and cfg == 1 else range(0, 5)):
             it = min(nbuf, 3) + 2       # the poll loop runs once per transmitted frame (<= 3 channels, <= NBUF buffers) plus a last, empty round
             cs.append({'CFG': cfg, 'MODE': 2, 'N': 0, 'EXTRA': 0, 'NBUF': nbuf, '_unwindset': 'vf_mux_poll_all.0:%d,vf_mux_poll_all.1:%d' % (it, it)})
     return cs
@@ -24,16 +27,19 @@ def mux_cases(tier):
 
 def sig_cases(tier):
     cs = []
+    q = tier == 'quick'
     base = {'MODE': 0, 'OP': 0, 'CLS': 0, 'N': 0, 'OUTCAP': 23, 'K': 0}
     cs.append(dict(base))
-    for cap in ((23,) if tier == 'quick' else (12, 23, 65)):
+    for cap in ((23,) if q else (12, 23, 65)):
         cs.append(dict(base, OP=1, OUTCAP=cap))
-    nmax = 12 if tier == 'quick' else 16
-    cs.append(dict(base, OP=2, CLS=3, N=0))
-    for n in range(1, nmax + 1):
-        for cls in range(4):
-            cs.append(dict(base, OP=2, CLS=cls, N=n))
-    for k, ns in ((4, (6,)),) if tier == 'quick' else ((4, (1, 2, 6, 8)), (5, (6,))):
+    # CLS 4 = command code fully symbolic (covers CLS 0..3 in one query); the thorough tier also runs the split by code
+    nmax = 12 if q else 16
+    for n in range(0, nmax + 1):
+        cs.append(dict(base, OP=2, CLS=4, N=n))
+        if not q and n >= 1:
+            for cls in range(4):
+                cs.append(dict(base, OP=2, CLS=cls, N=n))
+    for k, ns in ((4, (6,)),) if q else ((4, (1, 2, 6, 8)), (5, (6,))):
         for n in ns:
             cs.append(dict(base, MODE=1, K=k, N=n))
     return cs
